@@ -630,6 +630,8 @@ struct Gen<'r> {
     rng: &'r mut Rng,
     budget: i64,
     max_depth: usize,
+    /// Miri: short strings, narrow containers
+    small: bool,
 }
 
 impl<'r> Gen<'r> {
@@ -655,6 +657,7 @@ impl<'r> Gen<'r> {
             15..=18 => self.rng.usize(9, 40),
             _ => self.rng.usize(41, 300),
         };
+        let n = if self.small { n.min(10) } else { n };
         (0..n).map(|_| self.gen_char()).collect()
     }
     fn gen_key(&mut self) -> String {
@@ -794,6 +797,7 @@ impl<'r> Gen<'r> {
         // sometimes force a narrow deep chain so depth 8 is reached often
         let chain = self.rng.chance(1, 5);
         let n = if chain { n.min(2).max(1) } else { n };
+        let n = if self.small { n.min(4) } else { n };
         if k % 2 == 0 {
             J::Arr((0..n).map(|_| self.gen_value(depth + 1, chain)).collect())
         } else {
@@ -821,10 +825,10 @@ impl<'r> Gen<'r> {
 }
 
 fn gen_doc(rng: &mut Rng, small: bool) -> J {
-    let budget = if small { 12 } else { *rng.pick(&[6i64, 20, 20, 40, 40, 80, 200]) };
+    let budget = if small { 10 } else { *rng.pick(&[6i64, 20, 20, 40, 40, 80, 200]) };
     let max_depth = if rng.chance(1, 3) { 8 } else { rng.usize(1, 8) };
     let root_container = rng.chance(4, 5);
-    let mut g = Gen { rng, budget, max_depth };
+    let mut g = Gen { rng, budget, max_depth, small };
     g.gen_value(0, root_container)
 }
 
@@ -2119,7 +2123,7 @@ pub fn run(a: &Args) -> i32 {
         return ctx.finish();
     }
 
-    let docs: u64 = if miri { 200 } else if quick { 260_000 } else { 6_000_000 };
+    let docs: u64 = if miri { 200 } else if quick { 400_000 } else { 6_000_000 };
     let guard_s: f64 = if quick { 46.0 } else { 530.0 };
     let cap: usize = 400_000;
     let nworkers = if miri { 1 } else { WORKERS };
